@@ -457,7 +457,7 @@ static void run(const Case &c, Ctx &ctx) {
         PBT_CHECK(galloc::check_all(&m), "%s", m ? m : "");
     };
     // put through the API, with model update; returns nothing, throws on mismatch
-    auto do_put = [&](int t, uint32_t id, bool same_ptr, bool null_wc, const char *what) {
+    auto do_put = [&](int t, uint32_t id, bool same_ptr, bool null_wc, const char *what, bool same_val = false) {
         Tab &T = tabs[t];
         auto it = T.m.find(id);
         bool present = it != T.m.end();
@@ -466,7 +466,11 @@ static void run(const Case &c, Ctx &ctx) {
         if (id == NULLID) key = nullptr;
         else if (present && same_ptr) key = ko = it->second.k;
         else key = ko = new_key(id, t);
-        ValObj *v = new_val();
+        // re-putting the value object that is already stored: the entry is overwritten like any other ("destructors run
+        // exactly once for every entry that is overwritten"), so that object sees one destructor call now and one more
+        // when the new entry goes
+        ValObj *v = present && same_val && it->second.v ? it->second.v : new_val();
+        if (present && v == it->second.v) ctx.tag("same_value_pointer_reput");
         size_t size_before = T.t.p_impl->size;
         if (present) {
             if (it->second.k != ko && T.dk && it->second.k) it->second.k->expected++;
@@ -515,7 +519,7 @@ static void run(const Case &c, Ctx &ctx) {
             name = "put";
             if (!T.init) break;
             if (op.arg(3) == 0) id = NULLID, ctx.tag("null_key");
-            do_put(t, id, op.arg(2) % 4 == 0, op.arg(2) % 4 == 3, "put");
+            do_put(t, id, op.arg(2) % 4 == 0, op.arg(2) % 4 == 3, "put", op.arg(2) % 4 == 2 && op.arg(3) % 2 == 1);
             break;
         }
         case FILL: {
